@@ -94,6 +94,8 @@ ConsumerComplaints(e) ==
   \cup When(k <= BeforeHole(m.buf) /\ e.req # RLTake(m.buf, k),
             {<<"C03", "the bytes handed to the consumer differ from the bytes appended">>})
   \cup When(k > BeforeHole(m.buf), {<<"C04", "consumption crossed a pending placeholder">>})
+  \cup When(m.pend # {} /\ e.ret > ExpectedRet(m, e),
+            {<<"C04", "a consuming call went beyond the stable view while a placeholder is pending">>})
   \cup When(e.ev = "read" /\ e.got # e.req, {<<"C03", "Read delivered bytes other than the consumable prefix">>})
 
 Step(e) ==
